@@ -103,10 +103,13 @@ inductive Event
   | recv1 (port chan : Id) (seq : Nat)
   | ack1 (port chan : Id) (seq : Nat) (ack : Hex)
   | timeout1 (port chan : Id) (seq : Nat)
-  | recv2 (dst : Id) (seq idx : Nat)
-  | ack2 (src : Id) (seq idx : Nat) (ack : Hex)
-  | timeout2 (src : Id) (seq idx : Nat)
-  | send2 (src : Id) (seq idx : Nat)
+  /-- v2 events are per packet: `n` = number of payload callbacks that ran (payload indices
+      `0 … n-1`, in order, once each) in that transaction -/
+  | recv2 (dst : Id) (seq n : Nat)
+  /-- `acks` = the acknowledgement handed to each payload's callback (length = number that ran) -/
+  | ack2 (src : Id) (seq : Nat) (acks : List Hex)
+  | timeout2 (src : Id) (seq n : Nat)
+  | send2 (src : Id) (seq n : Nat)
   | hs (kind : String) (port chan : Id)
 deriving DecidableEq, Repr
 
